@@ -206,7 +206,10 @@ def case(ck: Check, camp, kind: str, minor: int, doc, input_kind: str, opts: dic
         cls = {**cls, "input_kind": input_kind, "kind": kind, "via": "generate", **option_flags(opts)}
         if cls.get("oracle") == "kw_only_field":
             cls["schema_asks"] = c19_kw.schema_asks_field_kw_only(doc, opts)
-        ck.fail(cls, inp, obs, f"only names and constructs available in Python 3.{minor}")
+        if ck.fail(cls, inp, obs, f"only names and constructs available in Python 3.{minor}") and len(ck.failures) == 1 and not isinstance(doc, str):
+            small = c19_kw.shrink_doc(inp, cls)   # the replay file carries the first failure: make it a small document
+            if small is not None:
+                ck.failures[0].input = small
     if not found and len(camp.samples) < 3:
         imports = sorted({f"{n.module}.{a.name}" for n in ast.walk(ast.parse(res.code or next(iter(res.files.values())))) if isinstance(n, ast.ImportFrom) and n.module for a in n.names})
         camp.samples.append({"kind": kind, "target": f"3.{minor}", "input": input_kind, "opts": opts, "imports": imports})
